@@ -35,6 +35,8 @@ def gen(w):
     for name in ('conditional_select', 'conditional_assign'):
         P.append('theorem %s_correct (%s c : Int) :\n    %s_fn %s c = if c = 0 then [%s] else [%s] := by\n  unfold %s_fn\n  split <;> simp_all\n'
                  % (name, ' '.join(xs + ys), name, ' '.join(xs + ys), ', '.join(xs), ', '.join(ys), name))
+    P.append('theorem conditional_swap_correct (%s c : Int) :\n    conditional_swap_fn %s c = if c = 0 then [%s] else [%s] := by\n  unfold conditional_swap_fn\n  split <;> simp_all\n'
+             % (' '.join(xs + ys), ' '.join(xs + ys), ', '.join(xs + ys), ', '.join(ys + xs)))
     P.append('end Dalek.Proofs.%s' % mod)
     open('/verif/lean/Dalek/Proofs/%s.lean' % mod, 'w').write('\n'.join(P) + '\n')
 
@@ -102,6 +104,22 @@ theorem %s_spec (hin : EnvIn %s %s.pre_%s) :
   rw [h]
   split <;> simp_all [toZ_cons, toZ_nil]
 ''' % (doc, name, lst(ins), mod, name, mod, name, lst(ins), mod, name, lst(ins), lst(a), lst(b), name, name, ' '.join(ins), name))
+    ins = a + b + ['c']
+    Q.append('''/-- `conditional_swap(a, b, c)` (five/ten `u64::conditional_swap` on the limbs): the pair unchanged if `c = 0`, exchanged if `c = 1` -/
+theorem conditional_swap_spec (hin : EnvIn %s MOD.pre_conditional_swap) :
+    ∃ out, Dalek.Gen.MOD.conditional_swap.evalC %s = some out ∧
+      Dalek.Gen.MOD.conditional_swap.evalW %s = out ∧
+      out = if c = 0 then %s else %s := by
+  obtain ⟨out, hC, hW, hpost, hZ⟩ := Prog.norm_sound _ _ _ _ Dalek.Gen.Norm.MOD.conditional_swap_norm_ok _ hin
+  refine ⟨out, hC, hW, ?_⟩
+  have h := Dalek.Proofs.MOD.conditional_swap_correct %s
+  rw [← Dalek.Gen.Norm.MOD.conditional_swap_fn_ok] at h
+  simp only [toZ_cons, toZ_nil] at hZ
+  rw [hZ] at h
+  apply Dalek.Proofs.Mont.toZ_inj
+  rw [h]
+  split <;> simp_all [toZ_cons, toZ_nil]
+''' % (lst(ins), lst(ins), lst(ins), lst(a + b), lst(b + a), ' '.join(ins)))
     Q.append('end\n')
     Q.append('/-- non-vacuity: all limbs at the tight bound satisfy the contract of `mul` -/\nexample : EnvIn (%s ++ %s) %s.pre_mul := by decide +kernel\n'
              % ((('List.replicate 5 0x8000000000000', 'List.replicate 5 0x8000000000000') if w == 51 else
